@@ -34,14 +34,14 @@ theorem verdictFromOpts_same (v : Variant) (cfg : Cfg) (ord ord' : List Path) (f
     the resumed run completes and every final file equals that of the uninterrupted run with the options of the killed run -/
 theorem resume_correct_from_opts {cfg : Cfg} (wf : WF cfg) (ord ord' : List Path) (hord : ord.Nodup) (hord' : ord'.Nodup)
     (hm kt : Bool) (fs0 : FS) (hs : cfg.fromSaves = true → SavesConsistent cfg fs0) (hi : IndexSound cfg fs0) (k : Nat)
-    (hk : (lockList cfg fs0).length + 2 ≤ k) : verdictFromOpts fixed cfg ord ord' hm kt fs0 k = .equal := by
+    (hk : (lockList cfg fs0).length + 4 ≤ k) : verdictFromOpts fixed cfg ord ord' hm kt fs0 k = .equal := by
   obtain ⟨hevs, hok0, hfs0⟩ := run_split wf ord fs0
   have hJ0 := J0_cleaned fs0 hs hi
   have hcl : lockList cfg (cleaned cfg fs0) = [] := lockList_cleaned cfg fs0
   have hsv1 : cfg.fromSaves = true → SavesOK cfg (cleaned cfg fs0) := fun e =>
     savesOK_frame (hs e).1 (cleaned_other cfg fs0 rfl) (fun _ => cleaned_other cfg fs0 rfl) (fun _ => cleaned_other cfg fs0 rfl)
   obtain ⟨k', rfl⟩ : ∃ k', k = (lockList cfg fs0).length + k' := ⟨k - (lockList cfg fs0).length, by omega⟩
-  have hk' : 2 ≤ k' := by omega
+  have hk' : 4 ≤ k' := by omega
   have hcrash : crashFSFrom fixed cfg ord fs0 ((lockList cfg fs0).length + k') =
       applyAll (cleaned cfg fs0) ((run fixed cfg ord false (cleaned cfg fs0)).evs.take k') := by
     simp only [crashFSFrom, cleanEventsFrom, hevs]
@@ -50,7 +50,7 @@ theorem resume_correct_from_opts {cfg : Cfg} (wf : WF cfg) (ord ord' : List Path
     rw [this, applyAll_append]; rfl
   have hJ : J cfg (crashFSFrom fixed cfg ord fs0 ((lockList cfg fs0).length + k')) := by
     rw [hcrash]
-    exact crash_state_invariant wf ord hord false hJ0 (by simp) (fun _ => hcl) hsv1 k' hk'
+    exact crash_state_invariant wf ord hord false hJ0 (by simp) (fun _ => hcl) hsv1 k' (Or.inl hk')
   have hsvc : cfg.fromSaves = true → SavesOK cfg (crashFSFrom fixed cfg ord fs0 ((lockList cfg fs0).length + k')) := by
     intro e
     rw [hcrash]
@@ -81,7 +81,7 @@ theorem resume_correct_from_opts {cfg : Cfg} (wf : WF cfg) (ord ord' : List Path
 
 /-- fresh output folder, BAM input, any options on the resume command line -/
 theorem resume_correct_opts {cfg : Cfg} (wf : WF cfg) (hfs : cfg.fromSaves = false) (ord ord' : List Path) (hord : ord.Nodup)
-    (hord' : ord'.Nodup) (hm kt : Bool) (k : Nat) (hk : 2 ≤ k) :
+    (hord' : ord'.Nodup) (hm kt : Bool) (k : Nat) (hk : 4 ≤ k) :
     verdictFromOpts fixed cfg ord ord' hm kt FS.empty k = .equal :=
   resume_correct_from_opts wf ord ord' hord hord' hm kt FS.empty (fun e => by rw [hfs] at e; exact absurd e (by simp))
     (indexSound_empty cfg) k
@@ -91,7 +91,7 @@ theorem resume_correct_opts {cfg : Cfg} (wf : WF cfg) (hfs : cfg.fromSaves = fal
 theorem resume_correct_pool_from_opts {cfg : Cfg} (wf : WF cfg) (ord ord' : List Path) (hord : ord.Nodup) (hord' : ord'.Nodup)
     (hm kt : Bool) (s1 s2 s1' s2' : List Chr) (fs0 : FS) (hs : cfg.fromSaves = true → SavesConsistent cfg fs0)
     (hi : IndexSound cfg fs0) (k : Nat)
-    (hk : (lockList cfg fs0).length + 2 ≤ k) :
+    (hk : (lockList cfg fs0).length + 4 ≤ k) :
     verdictPoolFromOpts fixed cfg ord ord' hm kt s1 s2 s1' s2' fs0 k = .equal := by
   obtain ⟨hevs, hok0, hfs0⟩ := runPool_split wf ord s1 s2 fs0
   have hJ0 := J0_cleaned fs0 hs hi
@@ -99,7 +99,7 @@ theorem resume_correct_pool_from_opts {cfg : Cfg} (wf : WF cfg) (ord ord' : List
   have hsv1 : cfg.fromSaves = true → SavesOK cfg (cleaned cfg fs0) := fun e =>
     savesOK_frame (hs e).1 (cleaned_other cfg fs0 rfl) (fun _ => cleaned_other cfg fs0 rfl) (fun _ => cleaned_other cfg fs0 rfl)
   obtain ⟨k', rfl⟩ : ∃ k', k = (lockList cfg fs0).length + k' := ⟨k - (lockList cfg fs0).length, by omega⟩
-  have hk' : 2 ≤ k' := by omega
+  have hk' : 4 ≤ k' := by omega
   have hcrash : crashFSPool fixed cfg ord s1 s2 fs0 ((lockList cfg fs0).length + k') =
       applyAll (cleaned cfg fs0) ((runPool fixed cfg ord false s1 s2 (cleaned cfg fs0)).evs.take k') := by
     simp only [crashFSPool, hevs]
@@ -108,7 +108,7 @@ theorem resume_correct_pool_from_opts {cfg : Cfg} (wf : WF cfg) (ord ord' : List
     rw [this, applyAll_append]; rfl
   have hJ : J cfg (crashFSPool fixed cfg ord s1 s2 fs0 ((lockList cfg fs0).length + k')) := by
     rw [hcrash]
-    exact crash_state_invariant_pool wf ord hord false s1 s2 hJ0 (by simp) (fun _ => hcl) hsv1 k' hk'
+    exact crash_state_invariant_pool wf ord hord false s1 s2 hJ0 (by simp) (fun _ => hcl) hsv1 k' (Or.inl hk')
   have hsvc : cfg.fromSaves = true → SavesOK cfg (crashFSPool fixed cfg ord s1 s2 fs0 ((lockList cfg fs0).length + k')) := by
     intro e
     rw [hcrash]
@@ -171,33 +171,33 @@ example : (Ev.create (.finalGz .bed)) ∈ cleanEvents fixed cfgE ordE ∧ (Ev.cr
     (Ev.create (.final .gtf)) ∈ cleanEvents fixed cfgE ordE ∧
     ((cleanEvents fixed cfgE ordE).filter (fun e => e == .create (.part .exon 0))).length = 2 ∧
     (Ev.append (.final .exonG)) ∈ cleanEvents fixed cfgE ordE ∧ (Ev.create (.tpm .exon)) ∉ cleanEvents fixed cfgE ordE ∧
-    (cleanEvents fixed cfgE ordE).length = 262 := by decide +kernel
+    (cleanEvents fixed cfgE ordE).length = 264 := by decide +kernel
 
 -- `--no_model_construction`: no GTF / model-count / `_transcript_stat` file is ever touched
 example : (cleanEvents fixed cfgN ord1).all (fun e => e.path != .trStat 0 && e.path != .final .gtf && e.path != .part .model 0
-    && e.path != .final .r2t && e.path != .final .ext) = true ∧ (cleanEvents fixed cfgN ord1).length = 63 := by decide +kernel
+    && e.path != .final .r2t && e.path != .final .ext) = true ∧ (cleanEvents fixed cfgN ord1).length = 65 := by decide +kernel
 
 -- `resume_correct` on these configurations: the hypotheses are met, the kill points lie inside the new stages
 -- (212 = the exon counts of the first merged chromosome have just been removed; 30 = inside the model-construction stage of cfgN)
-example : WF cfgE ∧ ordE.Nodup ∧ (cleanEvents fixed cfgE ordE)[211]? = some (.remove (.part .exon 1)) ∧ 2 ≤ 212 ∧
-    verdict fixed cfgE ordE ordE 212 = .equal :=
-  ⟨cfgE_wf, by decide, by decide +kernel, by omega, resume_correct cfgE_wf rfl ordE ordE (by decide) (by decide) 212 (by omega)⟩
+example : WF cfgE ∧ ordE.Nodup ∧ (cleanEvents fixed cfgE ordE)[213]? = some (.remove (.part .exon 1)) ∧ 4 ≤ 214 ∧
+    verdict fixed cfgE ordE ordE 214 = .equal :=
+  ⟨cfgE_wf, by decide, by decide +kernel, by omega, resume_correct cfgE_wf rfl ordE ordE (by decide) (by decide) 214 (by omega)⟩
 
 -- `resume_correct_opts`: the killed run had `--high_memory`, the resume command line does not repeat it (and adds `--keep_tmp`)
-example : verdictFromOpts fixed cfgE ordE ordE false true FS.empty 212 = .equal ∧
-    verdictFromOpts fixed cfgN ord1 ord1 false false FS.empty 30 = .equal :=
-  ⟨resume_correct_opts cfgE_wf rfl ordE ordE (by decide) (by decide) false true 212 (by omega),
+example : verdictFromOpts fixed cfgE ordE ordE false true FS.empty 214 = .equal ∧
+    verdictFromOpts fixed cfgN ord1 ord1 false false FS.empty 32 = .equal :=
+  ⟨resume_correct_opts cfgE_wf rfl ordE ordE (by decide) (by decide) false true 214 (by omega),
    resume_correct_opts (cfg := cfgN) ⟨by decide, by decide, by decide, fun _ => Iff.rfl, fun _ _ h => h⟩ rfl ord1 ord1
-     (by decide) (by decide) false false 30 (by omega)⟩
+     (by decide) (by decide) false false 32 (by omega)⟩
 
 -- … and the resumed run with `--keep_tmp` really differs from the one without (it keeps the auxiliary files)
-example : (run fixed (resumeCfg cfgE false true) ordE true (crashFS fixed cfgE ordE 212)).evs ≠
-    (run fixed cfgE ordE true (crashFS fixed cfgE ordE 212)).evs := by decide +kernel
+example : (run fixed (resumeCfg cfgE false true) ordE true (crashFS fixed cfgE ordE 214)).evs ≠
+    (run fixed cfgE ordE true (crashFS fixed cfgE ordE 214)).evs := by decide +kernel
 
 -- process pool, the new options, the options of the resume command line
-example : verdictPoolFromOpts fixed cfgE ordE ordE false false [0, 1, 0, 1, 1, 0] [1, 1, 0] [1, 0] [0, 1, 1, 0] FS.empty 150 = .equal :=
+example : verdictPoolFromOpts fixed cfgE ordE ordE false false [0, 1, 0, 1, 1, 0] [1, 1, 0] [1, 0] [0, 1, 1, 0] FS.empty 152 = .equal :=
   resume_correct_pool_from_opts cfgE_wf ordE ordE (by decide) (by decide) false false _ _ _ _ FS.empty
-    (fun e => by simp [cfgE] at e) (indexSound_empty _) 150 (by rw [lockList_empty]; decide)
+    (fun e => by simp [cfgE] at e) (indexSound_empty _) 152 (by rw [lockList_empty]; decide)
 
 /-- two experiments in one invocation: `cfgN` (`--no_model_construction`, `--high_memory`), then `cfgE` (`--count_exons`, gzipped
     outputs); both alignment files have unaligned reads, `mkExps` marks the second one `carried` -/
@@ -214,9 +214,9 @@ theorem expsO_wf : MWF expsO := by
 
 -- `resume_correct_multi` over the extended configuration space: 2 + 61 + 260 events, killed inside the merge of the exon
 -- counts of the second experiment
-example : MWF expsO ∧ (runMulti fixed expsO false MFS.empty).evs.length = 323 ∧
-    (runMulti fixed expsO false MFS.empty).evs[272]? = some (1, .remove (.part .exon 1)) ∧ 2 ≤ 273 ∧
-    verdictMulti fixed expsO expsO MFS.empty 273 = .equal :=
-  ⟨expsO_wf, by decide +kernel, by decide +kernel, by omega, resume_correct_multi expsO_wf expsO_wf rfl (by decide) 273 (by omega)⟩
+example : MWF expsO ∧ (runMulti fixed expsO false MFS.empty).evs.length = 325 ∧
+    (runMulti fixed expsO false MFS.empty).evs[274]? = some (1, .remove (.part .exon 1)) ∧ 4 ≤ 275 ∧
+    verdictMulti fixed expsO expsO MFS.empty 275 = .equal :=
+  ⟨expsO_wf, by decide +kernel, by decide +kernel, by omega, resume_correct_multi expsO_wf expsO_wf rfl (by decide) 275 (by omega)⟩
 
 end IsoVerif.Props.C07Opts
